@@ -1,6 +1,7 @@
 package otto
 
 import (
+	"regexp"
 	"strconv"
 	"time"
 )
@@ -32,7 +33,7 @@ var (
 		},
 	}
 	prototypeValueRegExp = regExpObject{
-		regularExpression: nil,
+		regularExpression: regexp.MustCompile(""),
 		global:            false,
 		ignoreCase:        false,
 		multiline:         false,
